@@ -560,6 +560,7 @@ func (e *env) doCase(class, base string, lim int, k call, status int, b body) (*
 			}
 		}
 	}
+	c.OracleFail = goOracle(k, lim, status, ob)
 	desc := map[string]interface{}{
 		"base_url": base, "limiter": []string{"none", "ok", "fails"}[lim], "call": k.name(),
 		"status": status, "body": b.xml(),
@@ -596,6 +597,67 @@ func (e *env) doCase(class, base string, lim int, k call, status int, b body) (*
 	desc["args"] = args
 	c.Desc = desc
 	return c, ob
+}
+
+// goOracle is a coarse Go-side restatement of the property (request count and order, method,
+// error class per status, NotFound, no data on error).  It does not look at paths or queries:
+// those are judged in Coq.  It exists so that a failing input is still reported when the Coq
+// side cannot be built.
+func goOracle(k call, lim int, status int, ob observed) string {
+	if ob.Panicked {
+		return "the call panicked"
+	}
+	valid := true
+	for _, o := range k.NOpts {
+		if o.Kind == 0 && (o.N < 1 || o.N > 10000) {
+			valid = false
+		}
+	}
+	var want []int64
+	switch {
+	case !valid:
+	case lim == 0:
+		want = []int64{2}
+	case lim == 1:
+		want = []int64{1, 2}
+	default:
+		want = []int64{1}
+	}
+	if fmt.Sprint(want) != fmt.Sprint(ob.Events) && !(len(want) == 0 && len(ob.Events) == 0) {
+		return fmt.Sprintf("events %v, expected %v (1 = Wait, 2 = request)", ob.Events, want)
+	}
+	if !valid || lim == 2 {
+		if ob.Class != 6 || ob.NotFound || ob.HasData {
+			return "no request was permitted, yet the call did not fail with an ordinary error and no data"
+		}
+		return ""
+	}
+	if len(ob.Requests) != 1 || ob.Requests[0].Method != "GET" {
+		return "not exactly one GET"
+	}
+	wantClass := int64(5)
+	switch status {
+	case 200:
+		wantClass = -1
+	case 404:
+		wantClass = 1
+	case 403:
+		wantClass = 2
+	case 410:
+		wantClass = 3
+	case 414:
+		wantClass = 4
+	}
+	if wantClass >= 0 && (ob.Class != wantClass || ob.HasData) {
+		return fmt.Sprintf("status %d: error class %d (expected %d), has data %v", status, ob.Class, wantClass, ob.HasData)
+	}
+	if wantClass < 0 && !(ob.Class == 0 && ob.HasData || ob.Class == 6 && !ob.HasData) {
+		return fmt.Sprintf("status 200: error class %d, has data %v", ob.Class, ob.HasData)
+	}
+	if ob.NotFound != (status == 404) {
+		return fmt.Sprintf("NotFound(err) = %v for status %d", ob.NotFound, status)
+	}
+	return ""
 }
 
 func fmtG(x float64) string { return fmt.Sprintf("%.17g", x) }
